@@ -1,6 +1,7 @@
 package scen
 
 import (
+	"hash/crc32"
 	"fmt"
 
 	"verifh/envfs"
@@ -41,6 +42,19 @@ func ApplyData(fs *envfs.FS, paths []string, recFiles []string, sliceSize int, s
 		for i := lo; i < hi; i++ {
 			nb[i] ^= 0xff
 		}
+		fs.Put(paths[d.F], nb)
+	case "crcovw": // overwrite the FULL slice At in place with different bytes that have the SAME CRC-32 (slice size >= 8)
+		b, ok := fs.Get(paths[d.F])
+		lo := d.At * sliceSize
+		if !ok || sliceSize < 8 || lo+sliceSize > len(b) {
+			return
+		}
+		nb := append([]byte{}, b...)
+		sl := nb[lo : lo+sliceSize]
+		want := crc32.ChecksumIEEE(sl)
+		sl[0] ^= 0x5a
+		sl[1] ^= 0xc3
+		ForceCRC32(sl, want)
 		fs.Put(paths[d.F], nb)
 	case "flip":
 		b, ok := fs.Get(paths[d.F])
@@ -146,6 +160,9 @@ func DataMenu(sizes []int, sliceSize int, nRec int, full bool) []Dmg {
 		ns := (n + sliceSize - 1) / sliceSize
 		for k := 0; k < ns; k++ {
 			m = append(m, Dmg{Op: "ovw", F: f, At: k})
+			if sliceSize >= 8 && (k+1)*sliceSize <= n {
+				m = append(m, Dmg{Op: "crcovw", F: f, At: k}) // other bytes, same CRC-32: only the MD5 tells them apart
+			}
 		}
 		if full {
 			for at := 0; at < n; at++ {
